@@ -163,7 +163,7 @@ pub fn exec(op: &str, a: &[String]) -> Option<Reply> {
             };
             vec![sp, j]
         }
-        // sensitive: starts, ends, contains; insensitive: the same + downcase of both
+        // sensitive: starts, ends, contains; insensitive: the same + downcase of both + the case table
         ("affix", 2) => {
             let k = &["value", "substring", "case_sensitive"];
             let mut o = Vec::new();
@@ -174,6 +174,9 @@ pub fn exec(op: &str, a: &[String]) -> Option<Reply> {
             }
             o.push(call1("downcase", &s(0)?));
             o.push(call1("downcase", &s(1)?));
+            // std `char::to_lowercase` of the chars involved: which hypotheses of the case-insensitive
+            // starts_with theorems the inputs meet
+            o.push(case_table(&[s(0), s(1)]));
             o
         }
         // strlen(truncate(..)), strlen(suffix), truncate(..)
